@@ -647,6 +647,20 @@ class Hist:
         if not a.enter_snaps:
             return
         want = a.enter_snaps.pop()
+        if self.prop == "C07":
+            # knock-outs made inside a block are undone with it: gene states and reaction bounds are what they were on entry
+            d = []
+            for gid, g in want["content"]["genes"].items():
+                g2 = snap["content"]["genes"].get(gid)
+                if g2 is not None and g2["functional"] != g["functional"]:
+                    d.append(f"gene {gid}: functional {g['functional']} on entry, {g2['functional']} after exit")
+            for rid, r in want["content"]["reactions"].items():
+                r2 = snap["content"]["reactions"].get(rid)
+                if r2 is not None and (r2["lb"], r2["ub"]) != (r["lb"], r["ub"]):
+                    d.append(f"reaction {rid}: bounds {(r['lb'], r['ub'])} on entry, {(r2['lb'], r2['ub'])} after exit")
+            if d:
+                raise Violation("knockout_restore", {"diff(enter,after_exit)": d[:8]}, culprit=op)
+            self.stats["probe:context_exit_checked"] += 1
         if "ctx_restore" not in self.oracles:
             return
         w, g = S.without_order(want), S.without_order(snap)
